@@ -1,0 +1,53 @@
+//go:build verif
+// +build verif
+
+package rpc
+
+// VerifConnState is a snapshot of a Conn's tables and locks.  It exists
+// only in builds with the "verif" tag and is used by the external
+// verification harness; it changes no behaviour.
+type VerifConnState struct {
+	MuFree     bool // Conn.mu could be acquired without blocking
+	SenderFree bool // the sender lock was not held (only meaningful if MuFree)
+	Questions  int  // live entries
+	Answers    int
+	Exports    int
+	Imports    int
+	Embargoes  int
+	ExportRefs map[uint32]uint32 // wire reference count per live export id
+}
+
+// VerifState inspects the connection without blocking.
+func (c *Conn) VerifState() VerifConnState {
+	var st VerifConnState
+	if !c.mu.TryLock() {
+		return st
+	}
+	defer c.mu.Unlock()
+	st.MuFree = true
+	st.SenderFree = c.sendCond == nil
+	for _, q := range c.questions {
+		if q != nil {
+			st.Questions++
+		}
+	}
+	for _, a := range c.answers {
+		if a != nil {
+			st.Answers++
+		}
+	}
+	st.ExportRefs = make(map[uint32]uint32)
+	for id, e := range c.exports {
+		if e != nil {
+			st.Exports++
+			st.ExportRefs[uint32(id)] = e.wireRefs
+		}
+	}
+	st.Imports = len(c.imports)
+	for _, e := range c.embargoes {
+		if e != nil {
+			st.Embargoes++
+		}
+	}
+	return st
+}
